@@ -32,7 +32,7 @@ use super::constant_expand::ConstantExpand;
 use super::constant_vec::ConstantVec;
 use super::delta_decode::*;
 use super::dict_lookup::*;
-use super::empty::Empty;
+use super::empty::{Empty, EmptyNullable};
 use super::encode_const::*;
 use super::exists::Exists;
 use super::filter::{Filter, NullableFilter};
@@ -777,10 +777,15 @@ pub mod operator {
     }
 
     pub fn empty<'a>(empty: TypedBufferRef) -> Result<BoxedOperator<'a>, QueryError> {
+        if empty.tag == EncodingType::Null {
+            return Ok(Box::new(NullVec { len: 0, output: empty.any() }));
+        }
         reify_types! {
             "empty";
             empty: Primitive;
-            Ok(Box::new(Empty { output: empty }))
+            Ok(Box::new(Empty { output: empty }));
+            empty: NullablePrimitive;
+            Ok(Box::new(EmptyNullable { output: empty }))
         }
     }
 
